@@ -1,4 +1,4 @@
-SPECIFICATION PSafeSpec
+SPECIFICATION MCSafeSpec
 CONSTANTS
   Repos = {"r1", "r2"}
   Tags = {"t1", "t2"}
@@ -11,7 +11,6 @@ CONSTANTS
   BlockSize = 8
   Pos <- MCPos
   TheRepo = "r1"
-  Contents <- MCContents
   SpaceSel = "tiny"
 INVARIANTS PTypeOK TypeOK PassBound MeasureNat SubjectFirst OnlyGrounded AllBeforePush OutcomeAgrees NeverRefused NothingUntilComplete CatAgrees NextPushAcceptable TagPushAcceptable FinalExact TagErrorLeaves OtherReposUntouched
 PROPERTIES Decreases FailedCallStoresNothing
